@@ -274,6 +274,108 @@ fn apply_model(m: &mut Model, next_id: &mut usize, op: Op, k3: &str) -> String {
     }
 }
 
+// ------------------------------------------------------------------ a caller's own key type
+/// `Registry<K, S>` takes any `K: Clone + Eq + Hashable`, and a hash only promises "equal keys hash equally": keys 0 and
+/// 1 below are DIFFERENT keys with the same 64-bit hash (2 is unrelated). Different keys never share storage, whatever
+/// their hashes: every sequence of get_or_create / get / delete over the three keys and two kinds against the map reference.
+#[derive(Clone, PartialEq, Eq, Debug)]
+struct Coarse(u8);
+impl std::hash::Hash for Coarse {
+    fn hash<H: std::hash::Hasher>(&self, h: &mut H) {
+        (self.0 / 2).hash(h)
+    }
+}
+/// the stock wrapper that makes any `Hash` type a registry key
+type CK = metrics_util::DefaultHashable<Coarse>;
+#[allow(non_snake_case)]
+fn CK(k: u8) -> CK {
+    metrics_util::DefaultHashable(Coarse(k))
+}
+struct CountingCK(Arc<AtomicUsize>);
+impl Storage<CK> for CountingCK {
+    type Counter = Arc<Tagged>;
+    type Gauge = Arc<Tagged>;
+    type Histogram = Arc<Tagged>;
+    fn counter(&self, _: &CK) -> Arc<Tagged> {
+        Arc::new(Tagged(self.0.fetch_add(1, Ordering::SeqCst)))
+    }
+    fn gauge(&self, _: &CK) -> Arc<Tagged> {
+        Arc::new(Tagged(self.0.fetch_add(1, Ordering::SeqCst)))
+    }
+    fn histogram(&self, _: &CK) -> Arc<Tagged> {
+        Arc::new(Tagged(self.0.fetch_add(1, Ordering::SeqCst)))
+    }
+}
+fn custom_key_part(ctx: &Ctx, res: &mut PartResult, depth: usize) {
+    res.engine = "E3 bounded exhaustive op sequences on Registry<K, S> for a caller's key type with colliding hashes".into();
+    // ops: for kind in {counter, histogram}, key in 0..3: get_or_create, get, delete; + listing of both kinds
+    let n_ops = 2 * 3 * 3 + 1;
+    let mut states = vseq::States::new();
+    let mut fails: Vec<(String, String, Vec<usize>)> = Vec::new();
+    let mut transitions = 0u64;
+    let mut run = |seq: &[usize]| -> Option<usize> {
+        let made = Arc::new(AtomicUsize::new(0));
+        let reg: Registry<CK, CountingCK> = Registry::new(CountingCK(made.clone()));
+        let mut m: BTreeMap<(usize, u8), usize> = BTreeMap::new();
+        let mut next = 0usize;
+        for (i, op) in seq.iter().enumerate() {
+            transitions += 1;
+            let (got, want): (String, String) = if *op == n_ops - 1 {
+                let mut l: Vec<(usize, u8, usize)> = Vec::new();
+                reg.visit_counters(|k, s| l.push((0, (k.0).0, s.0)));
+                for (k, s) in reg.get_histogram_handles() {
+                    l.push((1, (k.0).0, s.0));
+                }
+                l.sort();
+                (format!("{:?}", l), format!("{:?}", m.iter().map(|((kind, k), id)| (*kind, *k, *id)).collect::<Vec<_>>()))
+            } else {
+                let (kind, rest) = (op / 9, op % 9);
+                let (key, what) = ((rest / 3) as u8, rest % 3);
+                let k = CK(key);
+                match what {
+                    0 => {
+                        let id = if kind == 0 { reg.get_or_create_counter(&k, |s| s.0) } else { reg.get_or_create_histogram(&k, |s| s.0) };
+                        let w = *m.entry((kind, key)).or_insert_with(|| {
+                            next += 1;
+                            next - 1
+                        });
+                        (format!("id{}", id), format!("id{}", w))
+                    }
+                    1 => {
+                        let r = if kind == 0 { reg.get_counter(&k).map(|s| s.0) } else { reg.get_histogram(&k).map(|s| s.0) };
+                        (format!("{:?}", r), format!("{:?}", m.get(&(kind, key))))
+                    }
+                    _ => {
+                        let r = if kind == 0 { reg.delete_counter(&k) } else { reg.delete_histogram(&k) };
+                        (format!("{}", r), format!("{}", m.remove(&(kind, key)).is_some()))
+                    }
+                }
+            };
+            if got != want || made.load(Ordering::SeqCst) != next {
+                fails.push(("different-keys-share-storage-or-equal-keys-do-not".into(), format!("custom key type (keys 0 and 1 differ but hash alike): step {} of {:?} (op = kind*9 + key*3 + {{0 get_or_create, 1 get, 2 delete}}, 18 = listing) returned {}, the map reference says {}; {} storages constructed, reference {}", i, &seq[..=i], got, want, made.load(Ordering::SeqCst), next), seq[..=i].to_vec()));
+                return Some(i);
+            }
+        }
+        states.add(&format!("{:?}", m));
+        None
+    };
+    if let Some(seq) = ctx.replay.as_ref().and_then(|r| r["seq"].as_array().map(|a| a.iter().map(|x| x.as_u64().unwrap() as usize).collect::<Vec<usize>>())) {
+        run(&seq);
+        res.executions = 1;
+    } else {
+        let (n, complete) = vseq::for_each_seq(n_ops, depth, &mut run, &|| ctx.over_budget());
+        res.executions = n;
+        res.exhaustive = complete;
+    }
+    res.transitions = transitions;
+    res.states = states.len();
+    res.distinct_outcomes = states.len();
+    res.bound = json!({"depth": depth, "alphabet": n_ops, "keys": "0 and 1 collide (same 64-bit hash), 2 does not"});
+    for (sig, msg, seq) in fails.into_iter().take(10) {
+        res.violation(&sig, msg, json!({"seq": seq}));
+    }
+}
+
 fn e3(ctx: &Ctx, res: &mut PartResult, depth: usize, first: Option<usize>, samename: bool) {
     res.engine = "E3 bounded exhaustive op sequences on the real Registry vs a map reference".into();
     let alpha = if samename { alphabet_samename() } else { alphabet() };
@@ -514,6 +616,7 @@ fn parts(ctx: &Ctx) -> Vec<PartSpec> {
         v.push(PartSpec::new("e3-d3-16shards", json!({"depth": 3})));
         v.push(PartSpec::new("e3-samename-d4-16shards", json!({"depth": 4, "samename": true})));
         v.push(PartSpec::new("e3-samename-d4-1shard", json!({"depth": 4, "samename": true})).cpus("0"));
+        v.push(PartSpec::new("e3-custom-key-colliding-hashes-d4", json!({"custom": 4})));
         for s in ["create-create-delete", "create-retain-clear", "two-kinds-two-keys", "shared-static-key", "histogram-gauge-race", "two-removers", "remover-vs-sweeps"] {
             v.push(PartSpec::new(&format!("e1-{}-pb2", s), json!({"e1": s, "pb": 2})).cpus("0"));
         }
@@ -540,6 +643,10 @@ fn parts(ctx: &Ctx) -> Vec<PartSpec> {
 fn run(ctx: &Ctx, spec: &PartSpec) -> PartResult {
     let mut res = PartResult::new(&spec.name, "");
     vseq::quiet_panics();
+    if let Some(d) = spec.arg["custom"].as_u64() {
+        custom_key_part(ctx, &mut res, d as usize);
+        return res;
+    }
     if let Some(s) = spec.arg["e1"].as_str() {
         use Kind::*;
         let scn = match s {
@@ -562,7 +669,7 @@ fn main() {
     driver::main(CheckDef {
         prop: "C06",
         level: "model_checking",
-        rule: "E3: every sequence up to the stated depth over 34 operations (get_or_create — also with an op closure that panics while the shard write lock is held, caught — / get / delete / retain / clear / visit / get_*_handles over kinds x keys {k1, k1' = equal key built statically with permuted labels, clones of that static key taken before / after its hash was first computed, k2, k3 = same shard}) on a fresh real Registry with a construction-counting Storage, compared after every step with a map reference (results, storage identity, construction count, both listings); shard counts 1, 2, 16 via CPU affinity; E1: all SC interleavings (pb-bounded) of 3 threads x 2 ops, brute-force linearizability against the same reference; distinct = distinct reference states / outcomes",
+        rule: "E3: every sequence up to the stated depth over 34 operations (get_or_create — also with an op closure that panics while the shard write lock is held, caught — / get / delete / retain / clear / visit / get_*_handles over kinds x keys {k1, k1' = equal key built statically with permuted labels, clones of that static key taken before / after its hash was first computed, k2, k3 = same shard}) on a fresh real Registry with a construction-counting Storage, compared after every step with a map reference (results, storage identity, construction count, both listings); shard counts 1, 2, 16 via CPU affinity; the same for a caller's own key type in which two different keys have the same 64-bit hash; E1: all SC interleavings (pb-bounded) of 3 threads x 2 ops, brute-force linearizability against the same reference; distinct = distinct reference states / outcomes",
         assumptions: &["E1: sequential consistency; lock release is not a scheduling point of its own (the next operation of the releasing thread is)", "keys with pairwise distinct label names"],
         parts,
         run,
